@@ -63,6 +63,7 @@ func checkC04(c *core.Ctx, r *core.Report) {
 	c04FloorSnap(c, r)
 	c04UsageLattice(c, r)
 	c04DistinctCountBytes(c, r)
+	c04TagStore(c, r)
 
 	nte := c.NamedType(pkgSutils, "NumTypeEnclosure")
 	st := nte.Underlying().(*types.Struct)
